@@ -906,7 +906,7 @@ def corpus_files():
 
 INTERESTING_FILES = ["Africa/Casablanca", "Asia/Gaza", "America/Godthab", "America/Nuuk", "America/Adak", "Europe/Dublin", "Asia/Tbilisi", "Europe/Moscow", "Asia/Pyongyang",
                      "America/New_York", "Australia/Lord_Howe", "Antarctica/Troll", "Asia/Jerusalem", "America/Santiago", "Pacific/Apia", "right/UTC", "right/Europe/London",
-                     "right/America/New_York", "Etc/UTC", "Factory", "EST5EDT", "Pacific/Kiritimati", "Africa/Monrovia", "Asia/Kathmandu"]
+                     "right/America/New_York", "right/Asia/Hovd", "right/Indian/Chagos", "Etc/UTC", "Factory", "EST5EDT", "Pacific/Kiritimati", "Africa/Monrovia", "Asia/Kathmandu"]
 
 
 def parse_tzif_times(data):
@@ -1127,10 +1127,18 @@ def gen_hostile_numbers(rng, n):
             rule = rand_rule(rng)
             if rng.random() < 0.4:
                 rule[rng.choice(["sd", "ed"])] = rng.choice([["Z", 365], ["Z", 0], ["J", 365], ["J", 1], ["M", 12, 5, rng.randint(0, 6)], ["M", 1, 1, rng.randint(0, 6)]])
+        if rule["k"] == "alt" and rng.random() < 0.6:
+            # a rule-only zone is always accepted, so the rule evaluator really runs at the extreme years
+            tr, lp = [], []
+            ty = [dict(rule["std"]), dict(rule["dst"])]
+            times = []
         z = {"tr": tr, "ty": ty, "lp": lp, "rule": rule}
         yield zone_event(z)
+        guard_years = [I32MIN, I32MIN + 1, I32MIN + 2, I32MIN + 3, I32MAX - 3, I32MAX - 2, I32MAX - 1, I32MAX]
+        guard_instants = [days_from_civil(y, m, d) * DAY + s for y in guard_years for (m, d, s) in ((1, 1, 0), (12, 31, 84600), (6, 15, 43200))]
+        guard_instants = [t for t in guard_instants if I64MIN <= t <= I64MAX]
         for _ in range(6):
-            u = rng.choice(ext64 + [t + d for t in times for d in (-1, 0, 1) if I64MIN <= t + d <= I64MAX] + [rng.randint(I64MIN, I64MAX)])
+            u = rng.choice(ext64 + [t + d for t in times for d in (-1, 0, 1) if I64MIN <= t + d <= I64MAX] + [rng.randint(I64MIN, I64MAX)] + guard_instants * 2)
             yield {"op": "lookup", "a": {"u": W(u), "via": rng.choice(["ref", "owned"])}}
             yield {"op": "localtime", "a": {"u": W(u), "ns": rng.choice([0, 2147483647])}}
             f = rand_fields(rng, 0.9)
